@@ -39,6 +39,9 @@ type vNetCfg struct {
 	PrivateAddr bool // give peers RFC1918 addresses instead of public ones
 	// OptsFn, if set, supplies options that need the fake host (e.g. a diversity filter).
 	OptsFn func(n *vNet) []Option
+	// RealSender: use the DHT's own message sender (internal/net) over simulated streams instead of handing the
+	// simulation in as the message sender.
+	RealSender bool
 	// AddrFn, if set, overrides the address of simulated peer i.
 	AddrFn func(i int) ma.Multiaddr
 }
@@ -107,7 +110,13 @@ func vNewNet(t *testing.T, c *vh.Case, cfg vNetCfg) *vNet {
 	}
 	opts := []Option{
 		ProtocolPrefix("/verif"), BucketSize(cfg.K), Concurrency(cfg.A), Resiliency(cfg.B),
-		Datastore(store), WithCustomMessageSender(n.S.Builder()),
+		Datastore(store),
+	}
+	if cfg.RealSender {
+		// the DHT's own message sender over simulated streams (the simulated peers serve their scripts per stream)
+		n.H.StreamFn = n.S.StreamFn()
+	} else {
+		opts = append(opts, WithCustomMessageSender(n.S.Builder()))
 	}
 	if cfg.Mode != 0 {
 		opts = append(opts, Mode(cfg.Mode))
